@@ -3,6 +3,7 @@
 R1: every completion path resets the parser (server onInput; client connection routines).
 R2: reset completeness — every field of the parser's ownership closure that parsing may write is re-initialised by the reset
     that virtual dispatch selects for that parser (mod-set inclusion)."""
+import re
 from .. import cfg, lib, facts
 from ..facts import AnalysisBroken, strip_tmpl
 
@@ -182,6 +183,38 @@ def run(ck):
     MSG_PREFIXES = [H + "Message::", H + "Request::", H + "Response::", H + "Uri::", H + "Header::Collection::", H + "CookieJar::", H + "Cookie::"]
     _ir = {}
 
+    def storage_only_buffer():
+        """the receive buffer keeps its storage across reset(): sound when its content is reachable only through a get area that ends at a
+        fill counter -- feed() advances the counter by `len`, tests the limit on it and ends every get area at data() + counter -- and
+        reset() sets the counter to 0 and re-seats the get area"""
+        feeds_ = [g_ for g_ in prog.by_base.get("Pistache::ArrayStreamBuf::feed", []) if g_.blocks]
+        resets_ = [g_ for g_ in prog.by_base.get("Pistache::ArrayStreamBuf::reset", []) if g_.blocks]
+        if not feeds_ or not resets_:
+            return False
+        fd_ = feeds_[0]
+        if len(fd_.params) < 2:
+            return False
+        ctrs = {strip_tmpl(a_["lhs"].get("f") or "") for a_ in fd_.events("assign") if a_.get("op") == "+=" and (a_.get("rhs") or {}).get("v") == fd_.params[1]["name"] and a_["lhs"].get("f")}
+        if len(ctrs) != 1:
+            return False
+        c_ = list(ctrs)[0]
+        cshort = c_.rsplit("::", 1)[-1]
+        for g_ in prog.funcs.values():
+            if g_.blocks and strip_tmpl(g_.cls or "") == "Pistache::ArrayStreamBuf":
+                for e_ in g_.events("call"):
+                    if (e_.get("callee") or "").endswith("::setg") and len(e_.get("args") or []) == 3:
+                        t3 = re.sub(r"\s+|this->", "", e_["args"][2].get("t") or "")
+                        if g_.base.endswith("::reset"):
+                            continue
+                        if g_.d.get("ctor"):
+                            continue
+                        if not re.search(r"\b%s\b" % re.escape(cshort), t3):
+                            return False
+        rs_ = resets_[0]
+        zeroed = any(strip_tmpl(a_["lhs"].get("f") or "") == c_ and a_.get("const") == 0 for a_ in rs_.events("assign"))
+        reseated = any((e_.get("callee") or "").endswith("::setg") for e_ in rs_.events("call"))
+        return zeroed and reseated
+
     def influencing_reads():
         """fields that some function reachable from the parse roots *looks at* (an access that is not just the target of an assignment or
         of ++ / -- / += on the same line)"""
@@ -274,6 +307,10 @@ def run(ck):
                 continue
             how, ev, chain = wparse[fld][0]
             ok = fld in covered
+            if not ok and strip_tmpl(fld) == "Pistache::ArrayStreamBuf::bytes" and storage_only_buffer():
+                ck.note("C04-R2: ArrayStreamBuf::bytes is kept by reset() as storage only: the readable area ends at a fill counter that reset() "
+                        "takes back to 0 (limit test and every setg() agree on it), so nothing of the old content can be read again")
+                continue
             if not ok and fld != lib.STREAMBUF_AREA and not fld.startswith(tuple(MSG_PREFIXES)) and strip_tmpl(fld) not in influencing_reads():
                 # bookkeeping of the parser itself (a counter that is only ever incremented, say): nothing reachable from the parse
                 # roots looks at it, so what it holds cannot reach the next message
